@@ -37,9 +37,12 @@ def serverOp (args : List String) : String :=
       let immParts := imm.splitOn ":"
       let customs : List Bytes := match immParts with
         | [_, cs] => (cs.splitOn ",").filterMap ofHex
+        | [_, cs, _] => (cs.splitOn ",").filterMap ofHex
         | _ => []
+      -- a third part `S`: the handler object is the edge's SmtpSession (RSET / NOOP / QUIT never see a verdict)
+      let session := match immParts with | [_, _, f] => f == "S" | _ => false
       let cfg : Server.Cfg := { startTls := tls == "1", auth := auth == "1", maxSize := maxSize,
-                                immediateTls := immParts.head? == some "1", custom := customs }
+                                immediateTls := immParts.head? == some "1", custom := customs, session := session }
       let vl : List (Option Nat) := if verd == "-" then [] else (verd.splitOn ",").map String.toNat?
       let v : Server.Verdicts := fun n => match vl[n]? with | some x => x | none => none
       let b64Tab := parseHexTable b64t
